@@ -32,7 +32,13 @@ model with any number of reactions / genes / groups; remove_reactions a symbolic
       model.reactions; `update_genes_from_gpr()` is called - after that - on exactly the reactions with kept(x) and on nothing else.
       The two callees are RECORDED and their write sets havocked (their own contracts are contracts/c02_remove_reactions.py and
       contracts/c02_update_genes.py); the clauses (1), (2) are stated for SN.
-  (4) at every `update_genes_from_gpr()` call (obliged there, key suffix `rule-names-survive`): see NAMES below.
+NOT proved: (a) the SYNTACTIC fact that a rewritten rule names only genes that stay in the model (names(new rule) is a subset of
+names(old rule) minus S): c08_visitors proves the remover semantically only; without it the proved contract of update_genes_from_gpr
+cannot be composed with this one (a rule still naming a removed gene would make it create a NEW gene of that name); (b) hence the
+final cross-reference clause (no remaining reaction lists a removed gene, no removed gene lists a remaining reaction) - checked
+natively instead (/var/tmp probe, 40 calls on a 7-reaction model with a group, objects / identifiers, remove_reactions True /
+False: gene sets = rule names, both directions of the cross references, groups, `body` attribute present: no deviation);
+(c) the in-context behaviour (undo registrations).
 PRECONDITIONS (stated): no context open; model.reactions / model.genes well-formed DictLists; every reaction of the model has a GPR
 object (tag GPR) whose tree is well formed (and/or nodes with >= 1 child: the precondition of the remover) and which has its
 `body` attribute; different reactions have different GPR objects (ghost inverse `rg_gpos`: the position of the owning reaction); every item of gene_list names a gene of
@@ -54,9 +60,18 @@ ASSUMED (listed in the evidence):
   * GPR.eval by its heap contract (`GPR.eval/heap`, proved in c08_visitors), GPR.copy by its proved contract, get_context,
     DictList.remove, Model.get_associated_groups by their proved contracts.
 
-Mutation trials (tools/mutate_and_run.sh cobra/manipulation/delete.py ... contracts.c02_remove_genes --hooks HOOKS remove_genes):
-see the list at the end of this docstring (filled in after the runs).
-MUTANTS
+Mutation trials (mutated copies of cobra/manipulation/delete.py, source tree switched with VERIF_REPO as tools/mutate_and_run.sh does;
+every mutant left the named obligation of case objects:no_context unproved; loop#0 conjuncts: 1 length, 2-10 rules, 11-13 target
+list, 14-15 revisit set):
+  `gene._model = None` -> `= model`                                   loop#1/inv-preserve.9 (model pointers)
+  `and not rxn.gpr.eval(...)` -> `and rxn.gpr.eval(...)`              loop#0/inv-preserve.5~2 (rule value), .12~2 (list holds targets only)
+  `rxns_to_revisit.add(rxn)` dropped                                  loop#0/inv-preserve.15~3/~4 (every kept reaction is revisited)
+  `rxn.gpr.body = None` dropped                                       loop#0/inv-preserve.2~3/~5 (the GPR object has a body attribute)
+  `group.remove_members(gene)` dropped                                loop#2/inv-preserve.2 (visited groups lost the gene)
+  `model.genes.remove(gene)` dropped                                  loop#1/inv-preserve.6 (removed genes are gone from the index)
+  `_GeneRemover(gene_id_set)` -> `_GeneRemover(set())`                loop#0/inv-preserve.12~2, .15~2
+  update loop moved BEFORE `model.remove_reactions(...)`              call:update_genes_from_gpr/after-remove_reactions
+Vacuity guard: `False` is not provable from the path conditions of the visit paths, of loop 1 and of the exit (probe run).
 """
 import z3
 from .common import *  # noqa
@@ -173,11 +188,6 @@ def ug(st):
     return st.ghost.get("rg_ug", EMPTYR)
 
 
-def _names_ok(eng, st, r):
-    """filled in below (NAMES): obligation at an update_genes_from_gpr call"""
-    return None
-
-
 def call_method_hook(eng, st, recv, name, pos, kw):
     m = _entry_model(eng)
     if m is None:
@@ -226,9 +236,6 @@ def call_method_hook(eng, st, recv, name, pos, kw):
     if isinstance(recv, VRef) and recv.cls == "Reaction" and name == "update_genes_from_gpr" and not pos and not kw:
         # RECORDED call (ghost set of receivers); only after the remove_reactions call; its write set is havocked
         eng.oblige(st, z3.BoolVal("rg_call" in st.ghost), "call:update_genes_from_gpr/after-remove_reactions", kind="callpre")
-        ob = _names_ok(eng, st, recv.t)
-        if ob is not None:
-            eng.oblige(st, ob, "call:update_genes_from_gpr/rule-names-survive", kind="callpre")
         st = st.setghost("rg_ug", z3.Store(ug(st), recv.t, z3.BoolVal(True)))
         gl = mrec["attr:genes"]
         st = havoc_locations(eng, st, [("list", gl), ("dict", dict_of(st, gl)), ("heap", "_genes"), ("heap", "_reaction"),
